@@ -16,6 +16,7 @@ CONSTANTS
   StepsFirst = TRUE
   Resources = {"at", "tcc"}
   MaxLoss = 2
+  MaxAnnFail = 1
   Bystanders = {FALSE, TRUE}
   Shifts = {0}
 SYMMETRY Sym
